@@ -2,6 +2,7 @@
 //! Direction A: `*-replay` commands execute TLC-generated behaviours / tables on the real API.
 //! Direction B: `*-record` commands drive the real API and log NDJSON traces for TLC to validate.
 mod action;
+mod api;
 mod methods;
 mod num;
 mod tok;
@@ -26,6 +27,7 @@ fn dispatch(cmd: &str, rest: &[String]) {
 		"window-record" => window::record(rest),
 		"action-replay" => action::replay(rest),
 		"action-probe" => action::probe(rest),
+		"api-replay" => api::replay(rest),
 		"num-record" => num::record(rest),
 		"tok-replay" => tok::replay(rest),
 		"tok-record" => tok::record(rest),
